@@ -361,3 +361,84 @@ def tags_c04(h, obs):
         if st[0] == "block" and st[1].ok and st[1].timeout:
             t.add("timeout-fired")
     return t
+
+
+# ------------------------------------------------------------------------------------------ C14
+
+def parse_bals(s):
+    d = {}
+    for p in s.split():
+        if "=" in p:
+            k, v = p.split("=", 1)
+            try:
+                d[k] = int(v)
+            except ValueError:
+                return None
+    return d
+
+
+def mon_c14(h, obs):
+    hits = []
+    prev = None
+    last_block = None
+    nadm = 4
+    for st in parse_trace(h, obs):
+        if st[0] == "block":
+            last_block = st[1]
+        elif st[0] == "q" and st[1] == "bals":
+            cur = parse_bals(st[3])
+            if cur is None:
+                continue
+            for a, v in cur.items():
+                if v < 0 and not (prev is not None and prev.get(a, 0) < 0):
+                    b = last_block
+                    why = "negative-amount" if b and any(t.kind == "xfer" and t.amt.startswith("-") for t in b.txs) else "other"
+                    hits.append(Hit(f"C14/negative-balance/{why}", f"balance of {a} is {v} after block {b.h if b and b.ok else '?'}",
+                                    detail=(b.op if b else None)))
+            if prev is not None and last_block is not None and last_block.ok:
+                b = last_block
+                s0, s1 = sum(prev.values()), sum(cur.values())
+                # transfers to accounts outside the observed set legitimately move value out of the sum
+                out = 0
+                if s1 > s0:
+                    selfx = any(t.kind == "xfer" and t.frm == t.to for t in b.txs)
+                    neg = any(t.kind == "xfer" and t.amt.startswith("-") for t in b.txs)
+                    why = "self-transfer" if selfx else ("negative-amount" if neg else "other")
+                    hits.append(Hit(f"C14/value-created/{why}",
+                                    f"sum of balances grew by {s1 - s0} in block {b.h}", detail=b.op))
+                # exactness for single-transfer blocks between observed accounts
+                if len(b.txs) == 1 and b.txs[0].kind == "xfer" and len(b.rcs) == 1:
+                    t, rc = b.txs[0], b.rcs[0]
+                    try:
+                        amt = int(t.amt)
+                    except ValueError:
+                        amt = 0
+                    if t.frm in cur and t.to in cur and t.frm != t.to and amt >= 0:
+                        dsend = cur[t.frm] - prev[t.frm]
+                        drecv = cur[t.to] - prev[t.to]
+                        adm_gain = {a: cur[a] - prev[a] for a in cur if a.startswith("adm")}
+                        share = adm_gain.get("adm3", 0) if t.to != "adm3" and t.frm != "adm3" else adm_gain.get("adm2", 0)
+                        recv_share = share if t.to.startswith("adm") else 0
+                        if rc.ok:
+                            if drecv - recv_share != amt:
+                                hits.append(Hit("C14/transfer-not-exact", f"transfer of {amt} credited {drecv - recv_share} to {t.to}", detail=b.raw))
+                            fee = -(dsend + amt)
+                            if fee < 0 or fee - nadm * share < 0 or fee - nadm * share > nadm - 1:
+                                hits.append(Hit("C14/fee-rounding", f"sender paid fee {fee}, admins got {nadm}x{share}", detail=b.raw))
+                        elif rc.ret == "funds":
+                            if drecv - recv_share != 0:
+                                hits.append(Hit("C14/failed-transfer-moved-value", f"failed transfer still credited {drecv - recv_share} to {t.to}", detail=b.raw))
+            prev = cur
+    return hits
+
+
+def tags_c14(h, obs):
+    t = set()
+    for st in parse_trace(h, obs):
+        if st[0] == "block" and st[1].ok:
+            for tx, rc in zip(st[1].txs, st[1].rcs):
+                if tx.kind == "xfer":
+                    t.add("xfer:" + ("ok" if rc.ok else rc.ret))
+                elif not rc.ok and rc.ret == "fee":
+                    t.add("fee-failure")
+    return t
